@@ -504,6 +504,7 @@ struct C15 : Driver {
       RunCfg r = decompress_cfg(rng, ws[w], false, c.data.size(), 4000);
       if (tier) r.in_granul = k == 0 ? 0 : k == 1 ? 16 : 256; else r.in_granul = k == 0 ? 0 : 32;
       if (rng.below(3) == 0) r.argv.push_back("-t");
+      else if (rng.below(4) == 0) r.operand2 = true;     // the damaged file as the second FILE operand, after an intact one (seeded change C15-3: error reporting state that outlives an operand)
       c.runs.push_back(r);
     }
     return c;
